@@ -131,6 +131,15 @@ type c10Scenario struct {
 	SeedRecs []c10SeedRec `json:"seed_recs,omitempty"`
 	Ops      []c10Op      `json:"ops"`
 	Settle   bool         `json:"settle,omitempty"`
+	// cloud outage: the fault bits CF apply to every reconcile/collector step with
+	// From <= index < To (including the two halves of an "rr" step)
+	Outage *c10Outage `json:"outage,omitempty"`
+}
+
+type c10Outage struct {
+	From int    `json:"from"`
+	To   int    `json:"to"`
+	CF   uint16 `json:"cf"`
 }
 
 // ---------------------------------------------------------------- world
@@ -196,6 +205,7 @@ type c10World struct {
 	pods      []c10PodState
 	nt        bool
 	noGuard   bool
+	callMark  int
 	faulted   bool // some step of the history had an injected fault
 	closed    bool // closed-loop scenario (no seeds): oracle (5) and end-state oracles apply
 	edgeKnown int
@@ -856,21 +866,33 @@ func (w *c10World) runOp(i int, op c10Op) {
 		if (op.K == "rpod" || op.K == "reni") && (op.P < 0 || op.P >= len(w.pods)) {
 			return
 		}
+		if o := w.s.Outage; o != nil && i >= o.From && i < o.To {
+			op.CF |= o.CF
+			w.c.Label("fault:outage")
+		}
 		var mid func()
 		if m := op.Mid; m != nil && w.midAllowed(op, *m) {
 			mid = func() {
 				w.c.Trace("  [mid] %s p=%d", m.K, m.P)
 				w.c.Label("mid:" + op.K + "/" + m.K)
-				switch m.K {
-				case "rpod", "reni":
+				nested := func(k string) {
 					w.mu.Lock()
 					saved := w.actorK
-					w.actorK = m.K
+					w.actorK = k
 					w.mu.Unlock()
-					w.reconcile(m.K, m.P)
+					w.reconcile(k, m.P)
 					w.mu.Lock()
 					w.actorK = saved
 					w.mu.Unlock()
+				}
+				switch m.K {
+				case "rpod", "reni":
+					nested(m.K)
+				case "gone-rpod", "exit-rpod", "delete-rpod", "create-rpod":
+					// the pod leaves (or appears) AND the pod controller reacts, all while the
+					// outer controller is inside its cloud call
+					w.podOp(strings.TrimSuffix(m.K, "-rpod"), m.P, m.N)
+					nested("rpod")
 				default:
 					w.podOp(m.K, m.P, m.N)
 				}
@@ -921,7 +943,11 @@ func (w *c10World) midAllowed(op c10Op, m c10Mid) bool {
 		if len(w.s.Pods[op.P].Nets) != 1 {
 			return false
 		}
-		if (m.K == "rpod" || m.K == "reni") && m.K == op.K && m.P == op.P {
+		mk := m.K
+		if strings.HasSuffix(mk, "-rpod") {
+			mk = "rpod"
+		}
+		if (mk == "rpod" || mk == "reni") && mk == op.K && m.P == op.P {
 			return false
 		}
 	}
@@ -931,6 +957,20 @@ func (w *c10World) midAllowed(op c10Op, m c10Mid) bool {
 // endStep: oracles evaluated at every quiescent point.
 func (w *c10World) endStep() {
 	w.checkViol()
+	// evidence: a step in which one interface's delete failed while another delete went through
+	w.cloud.mu.Lock()
+	inj, ok := false, false
+	for k := len(w.cloud.calls) - 1; k >= w.callMark; k-- {
+		if cl := w.cloud.calls[k]; cl.Kind == "Delete" {
+			inj = inj || cl.Injected
+			ok = ok || (!cl.Injected && cl.Err == "")
+		}
+	}
+	w.callMark = len(w.cloud.calls)
+	w.cloud.mu.Unlock()
+	if inj && ok {
+		w.c.Label("partial-delete:" + w.actorK)
+	}
 	if w.cloud.orderTmo {
 		w.c.Inconclusive("cloud call ordering wait timed out")
 	}
